@@ -360,6 +360,27 @@ def managed_check(pid, tier, seed):
             raise ToolError("ManagedPool.tla does not refine ManagedCounting.tla under the counting map")
         log("[%s]   refinement ManagedPool => ManagedCounting checked by TLC: %d distinct states, %.1fs" % (pid, r["distinct"], r["tlc_s"]))
         extra["refinement"] = {"states": r["distinct"], "transitions": r["generated"], "tlc_s": r["tlc_s"], "constants": spec["extra"]["refine_consts"]}
+    if "ucounting" in spec.get("extra", {}).get(tier, []):
+        log("[%s] unbounded design-level argument: Apalache discharges the inductive invariant of UnmanagedCounting.tla ..." % pid)
+        t0 = time.time()
+        p = subprocess.run([os.path.join(ROOT, "tools", "apalache_ucounting.sh")], capture_output=True, text=True)
+        obs_ = re.findall(r'OBLIGATION (.*): (discharged|FAILED)', p.stdout)
+        for n, r in obs_:
+            log("[%s]   %s: %s" % (pid, n, r))
+        if p.returncode != 0 or not obs_:
+            raise ToolError("Apalache could not discharge the inductive invariant of UnmanagedCounting.tla: %s" % p.stdout[-500:])
+        extra["apalache"] = {"obligations": [n for n, _ in obs_], "discharged": len([1 for _, r in obs_ if r == "discharged"]),
+                             "wall_s": round(time.time() - t0, 1), "module": "UnmanagedCounting.tla",
+                             "scope": "any number of tasks, any max_size, any number of preloaded objects; no close"}
+        rcfg = os.path.join(ROOT, "spec", "MCU_Refine_run.cfg")
+        open(rcfg, "w").write(configs.cfg_text(spec["extra"]["refine_consts"], ["RefInv"], ["Refines"], base=configs.UBASE))
+        r = run_tlc(os.path.join(ROOT, "spec", "MCU_Refine.tla"), rcfg, workdir)
+        os.remove(rcfg)
+        if not r["ok"]:
+            sys.stderr.write(r["out"][-3000:])
+            raise ToolError("UnmanagedPool.tla does not refine UnmanagedCounting.tla under the counting map")
+        log("[%s]   refinement UnmanagedPool => UnmanagedCounting checked by TLC: %d distinct states, %.1fs" % (pid, r["distinct"], r["tlc_s"]))
+        extra["refinement"] = {"states": r["distinct"], "transitions": r["generated"], "tlc_s": r["tlc_s"], "constants": spec["extra"]["refine_consts"]}
     # verdict
     rc = 0
     vdir = os.path.join(ROOT, "work", "violations")
